@@ -70,6 +70,16 @@ CLAIMED = {
         "source by the mini translator; correspondence on boundaries + dense tick prefix",
         "float division in TimeTicks.pythonize is modelled as exact (argued in DESIGN.md, sampled); x690 Integer codec modelled",
     ),
+    "C09": (
+        "proof: for every MAC / localisation / privacy function: with an auth key whatever is accepted carried the auth flag, the "
+        "credential's user name, a 12-octet digest equal to the MAC (localised key, octets as received with the digest zeroed); with "
+        "a priv key it carried the priv flag and an OCTET STRING payload decrypted under the key localised to the engine id in the "
+        "message with the message's boots/time/salt, plaintext never accepted; unauthenticated messages (Reports included) only "
+        "raise; under an explicit unforgeability hypothesis the result is an authentic one; tied by structural forgeries run "
+        "through the real message-processing model vs the model (independent HMAC / keystream oracles) and a bit-flipping MITM",
+        "cryptographic strength is a hypothesis (C09_same_result), not a theorem; hangs inside x690 on corrupted input are "
+        "attributed to the recorded dependency finding only when the Lean x690 mirror predicts the loop for that datagram",
+    ),
     "C12": (
         "proof (partial): first datagram of a fresh client is a discovery probe in every history; every request carries the "
         "discovered engine id (security and default context engine id); refused discovery replies (foreign msg id / no bindings) "
